@@ -180,53 +180,7 @@ func (c *ctx) rangeSection(r *lib.RNG, out chan<- batch) {
 			return cl
 		}
 		var pending batch
-		eval := func(cl *RangeClaim) {
-			isTrue, moreTruth := claimTruth(cl)
-			more, class, msg := realVerifyRange(cl)
-			res.Case(fmt.Sprintf("range/%d/%s/%s/%v", ti, cl.Kind, cl.First, cl.Keys), true)
-			res.Hit("range:" + impl + ":" + cl.Kind + ":" + class)
-			if impl == "trie2" && !cl.NoProof && (len(cl.Keys) == 0 || (len(cl.Keys) == 1 && cl.First == cl.Keys[0])) && len(cl.Keys) == len(cl.Values) {
-				// the two cases of trie2.VerifyRangeProof the Lean model covers
-				line := "r2 " + rcfg + " empty " + cl.Root + " " + cl.First + cl.Proof.toks(hashFnOf("ped"))
-				if len(cl.Keys) == 1 {
-					line = "r2 " + rcfg + " single " + cl.Root + " " + cl.First + " " + cl.Values[0] + cl.Proof.toks(hashFnOf("ped"))
-				}
-				implAns := class
-				if class == "ok" {
-					implAns = "ok 0"
-					if more {
-						implAns = "ok 1"
-					}
-				}
-				cc := cl
-				pending.checks = append(pending.checks, check{line: line, impl: implAns, sig: "trie2:range-model:" + cl.Kind, replay: func() any { return cc }})
-				res.Hit("range-model:" + cl.Kind)
-			}
-			honest := strings.HasPrefix(cl.Kind, "honest")
-			switch {
-			case class == "panic" || class == "hang":
-				// one signature per panic site, whatever the claim was (honest or altered)
-				site := "other"
-				if strings.Contains(msg, "invalid node") {
-					site = "unsetInternal-invalid-node"
-				}
-				if class == "hang" {
-					site = "hang"
-				}
-				res.Hit("range:" + impl + ":panic-on-" + cl.Kind)
-				res.Violate(lib.Violation{Sig: impl + ":range:panic:" + site,
-					What: fmt.Sprintf("%s.VerifyRangeProof %ss (claim: %s): %s", impl, class, cl.Kind, msg), Replay: cl})
-			case honest && class != "ok":
-				res.Violate(lib.Violation{Sig: impl + ":range:" + cl.Kind + ":rejected",
-					What: fmt.Sprintf("%s.VerifyRangeProof rejects the range proof returned by GetRangeProof for a true claim (%s): %s", impl, cl.Kind, msg), Replay: cl})
-			case class == "ok" && !isTrue:
-				res.Violate(lib.Violation{Sig: impl + ":range:" + cl.Kind + ":false-claim-accepted",
-					What: fmt.Sprintf("%s.VerifyRangeProof accepts a range claim the trie does not satisfy (%s)", impl, cl.Kind), Replay: cl})
-			case class == "ok" && more != moreTruth:
-				res.Violate(lib.Violation{Sig: impl + ":range:" + cl.Kind + ":has-more-wrong",
-					What: fmt.Sprintf("%s.VerifyRangeProof reports more=%v, the trie has more=%v (%s)", impl, more, moreTruth, cl.Kind), Replay: cl})
-			}
-		}
+		eval := func(cl *RangeClaim) { c.evalRange(cl, &pending, rcfg, fmt.Sprint(ti)) }
 		rp := func(l, rk string) Proof {
 			p, err := bt.rangeProof(l, rk)
 			if err != nil {
@@ -372,6 +326,59 @@ func (c *ctx) rangeSection(r *lib.RNG, out chan<- batch) {
 		if len(pending.checks) > 0 {
 			out <- pending
 		}
+	}
+}
+
+// evalRange runs one range claim on the real code, judges it against the key/value set and, for
+// the two cases the Lean model covers, queues the correspondence check.
+func (c *ctx) evalRange(cl *RangeClaim, pending *batch, rcfg, id string) {
+	res := c.res
+	impl := cl.Impl
+
+	isTrue, moreTruth := claimTruth(cl)
+	more, class, msg := realVerifyRange(cl)
+	res.Case("range/"+id+"/"+cl.Kind+"/"+cl.First+"/"+strings.Join(cl.Keys, ","), true)
+	res.Hit("range:" + impl + ":" + cl.Kind + ":" + class)
+	if impl == "trie2" && !cl.NoProof && (len(cl.Keys) == 0 || (len(cl.Keys) == 1 && cl.First == cl.Keys[0])) && len(cl.Keys) == len(cl.Values) {
+		// the two cases of trie2.VerifyRangeProof the Lean model covers
+		line := "r2 " + rcfg + " empty " + cl.Root + " " + cl.First + cl.Proof.toks(hashFnOf("ped"))
+		if len(cl.Keys) == 1 {
+			line = "r2 " + rcfg + " single " + cl.Root + " " + cl.First + " " + cl.Values[0] + cl.Proof.toks(hashFnOf("ped"))
+		}
+		implAns := class
+		if class == "ok" {
+			implAns = "ok 0"
+			if more {
+				implAns = "ok 1"
+			}
+		}
+		cc := cl
+		pending.checks = append(pending.checks, check{line: line, impl: implAns, sig: "trie2:range-model:" + cl.Kind, replay: func() any { return cc }})
+		res.Hit("range-model:" + cl.Kind)
+	}
+	honest := strings.HasPrefix(cl.Kind, "honest")
+	switch {
+	case class == "panic" || class == "hang":
+		// one signature per panic site, whatever the claim was (honest or altered)
+		site := "other"
+		if strings.Contains(msg, "invalid node") {
+			site = "unsetInternal-invalid-node"
+		}
+		if class == "hang" {
+			site = "hang"
+		}
+		res.Hit("range:" + impl + ":panic-on-" + cl.Kind)
+		res.Violate(lib.Violation{Sig: impl + ":range:panic:" + site,
+			What: fmt.Sprintf("%s.VerifyRangeProof %ss (claim: %s): %s", impl, class, cl.Kind, msg), Replay: cl})
+	case honest && class != "ok":
+		res.Violate(lib.Violation{Sig: impl + ":range:" + cl.Kind + ":rejected",
+			What: fmt.Sprintf("%s.VerifyRangeProof rejects the range proof returned by GetRangeProof for a true claim (%s): %s", impl, cl.Kind, msg), Replay: cl})
+	case class == "ok" && !isTrue:
+		res.Violate(lib.Violation{Sig: impl + ":range:" + cl.Kind + ":false-claim-accepted",
+			What: fmt.Sprintf("%s.VerifyRangeProof accepts a range claim the trie does not satisfy (%s)", impl, cl.Kind), Replay: cl})
+	case class == "ok" && more != moreTruth:
+		res.Violate(lib.Violation{Sig: impl + ":range:" + cl.Kind + ":has-more-wrong",
+			What: fmt.Sprintf("%s.VerifyRangeProof reports more=%v, the trie has more=%v (%s)", impl, more, moreTruth, cl.Kind), Replay: cl})
 	}
 }
 
